@@ -7,7 +7,9 @@
 From stdpp Require Import gmap.
 Require Import Grist.Model.Rollback Grist.Proofs.Rollback_proofs Grist.Proofs.Rollback_run Grist.Proofs.Rollback_inside
   Grist.Proofs.Rollback_flush Grist.Proofs.Rollback_calc Grist.Proofs.Rollback_calc_multi Grist.Proofs.Rollback_calc_rows Grist.Proofs.Rollback_calc_removes Grist.Proofs.Rollback_schema Grist.Proofs.Rollback_usable
-  Grist.Proofs.Rollback_witness Grist.Proofs.Rollback_bounded.
+  Grist.Proofs.Rollback_witness Grist.Proofs.Rollback_bounded Grist.Proofs.Rollback_bridge
+  Grist.Lib.RbPrelude GristGen.Rollback_gen.
+Require Grist.Model.StoredLog GristGen.StoredLogPy_gen.
 Open Scope Z_scope.
 
 (* what the except branch of apply_user_actions computes after a crash before micro-step k of the bundle es *)
@@ -346,3 +348,69 @@ Example C04_partial_inside_nonvacuous :
   | _, _ => False
   end.
 Proof. vm_compute. repeat split; auto. Qed.
+
+(* ---------------------------------------------------------------------------------------------------------- *)
+(* BRIDGING OBLIGATIONS: the deciding code of the rollback is regenerated from /repo on every run
+   (harness/rb2v.py -> coq/gen/Rollback_gen.v; row filters: harness/sl2v.py -> coq/gen/StoredLogPy_gen.v) and proved
+   equal, pointwise, to what Model/Rollback.v assumes.  A semantic edit of that code breaks one of these proofs. *)
+Theorem C04_bridge_get_undo_checkpoint : forall (o : oacts action), gen_get_undo_checkpoint o = model_checkpoint o.
+Proof. exact (@bridge_get_undo_checkpoint action). Qed.
+
+Theorem C04_bridge_undo_to_checkpoint : forall (o0 : oacts action) ec es ed eu er,
+  length (oa_direct o0) = length (oa_stored o0) -> (ec, es, eu, er) <> ([], [], [], []) ->
+  gen_undo_to_checkpoint (gen_get_undo_checkpoint o0) (grown o0 ec es ed eu er) = (Some eu, o0).
+Proof. exact (@bridge_undo_to_checkpoint action). Qed.
+
+Theorem C04_bridge_undo_to_checkpoint_nothing : forall (o0 : oacts action) ed,
+  gen_undo_to_checkpoint (gen_get_undo_checkpoint o0) (grown o0 [] [] ed [] []) = (None, grown o0 [] [] ed [] []).
+Proof. exact (@bridge_undo_to_checkpoint_nothing action). Qed.
+
+Theorem C04_bridge_doc_action_orders :
+  order_of (steps_of w_ord w_doc (BulkAddRecord T [3; 4] [(A, [5; 6]); (C, [1; 2])])) = effects gen_order_BulkAddRecord /\
+  order_of (steps_of w_ord w_doc (BulkUpdateRecord T [1; 2] [(A, [5; 6]); (C, [1; 2])])) = effects gen_order_BulkUpdateRecord /\
+  order_of (steps_of w_ord w_doc (BulkRemoveRecord T [1; 2])) = effects gen_order_BulkRemoveRecord /\
+  order_of (steps_of w_ord w_doc (ReplaceTableData T [1; 5] [(A, [5; 6])])) = effects gen_order_ReplaceTableData /\
+  hd OMut gen_order_BulkAddRecord = OAssert /\ firstn 2 gen_order_BulkUpdateRecord = [OAssert; OResolve].
+Proof.
+  pose proof bridge_checks_first as (H1 & _ & H2 & _).
+  exact (conj bridge_order_BulkAddRecord (conj bridge_order_BulkUpdateRecord (conj bridge_order_BulkRemoveRecord
+        (conj bridge_order_ReplaceTableData (conj H1 H2))))).
+Qed.
+
+Theorem C04_bridge_except_branch : gen_except_branch = model_except_branch.
+Proof. exact bridge_except_branch. Qed.
+
+Theorem C04_bridge_flush_positions : gen_undo_half = model_undo_half /\ gen_flush_target = FlushIntoStoredAndUndo.
+Proof. exact bridge_undo_half. Qed.
+
+Theorem C04_bridge_row_filters : forall tables t td rows,
+  StoredLog.aget StoredLog.str_eqb t tables = Some td ->
+  StoredLogPy_gen.filter_out_new_rows_py tables t rows
+    = filter (fun r => (list_to_map (StoredLog.td_pb td) : gmap Z bool) !! r <> Some false) rows /\
+  StoredLogPy_gen.filter_out_gone_rows_py tables t rows
+    = filter (fun r => (list_to_map (StoredLog.td_pa td) : gmap Z bool) !! r <> Some false) rows.
+Proof. intros. split; [apply bridge_filter_out_new_rows|apply bridge_filter_out_gone_rows]; assumption. Qed.
+
+(* The main theorems, about the GENERATED revert: what Engine._undo_to_checkpoint hands to ApplyUndoActions for the
+   checkpoint Engine._get_undo_checkpoint took is what the model's rollback replays -- so C04_rollback_partial and
+   the C04_pending_calcs_* theorems speak about the code's selection of undo actions. *)
+Theorem C04_code_rollback : forall ord (st : mstate) (o0 : oacts action) u0 ua ec es ed er,
+  oa_undo o0 = u0 -> ms_undo st = u0 ++ ua -> length (oa_direct o0) = length (oa_stored o0) ->
+  (ec, es, ua, er) <> ([], [], [], []) ->
+  rollback ord (length u0) st
+  = replay ord (restore_schema st)
+      (rev (default [] (fst (gen_undo_to_checkpoint (gen_get_undo_checkpoint o0) (grown o0 ec es ed ua er))))).
+Proof. exact code_rollback. Qed.
+
+Theorem C04_code_rollback_partial : forall ord (s : doc) (es : list event) (k : nat) st cur done (o0 : oacts action) ec es' ed er,
+  wf s -> Forall no_replace_ev es ->
+  run_until_crash ord (init_state s []) es k = Crashed st cur done ->
+  ms_pending st = [] -> covered_point cur done ->
+  oa_undo o0 = [] -> length (oa_direct o0) = length (oa_stored o0) -> (ec, es', ms_undo st, er) <> ([], [], [], []) ->
+  replay ord (restore_schema st)
+    (rev (default [] (fst (gen_undo_to_checkpoint (gen_get_undo_checkpoint o0) (grown o0 ec es' ed (ms_undo st) er))))) = Some s.
+Proof.
+  intros ord s es k st cur done o0 ec es' ed er Hw Hnr Hrun Hp Hcov Hu Hd Hne.
+  rewrite <- (code_rollback ord st o0 [] (ms_undo st) ec es' ed er Hu eq_refl Hd Hne).
+  exact (rollback_partial_covered ord s [] es k st cur done Hw Hnr Hrun Hp Hcov).
+Qed.
